@@ -83,6 +83,7 @@ Lemma ev_S P n stack fr e st :
                   | EntErr => Err ETypeErr
                   | EntAnom k => Anomaly k
                   end
+              | VBuiltin b => match call_builtin b vs with Some z => Ok (VInt z) st2 | None => Err ETypeErr end
               | _ => Err ETypeErr
               end
           | Err e => Err e | Fuel => Fuel | Anomaly k => Anomaly k
@@ -135,6 +136,11 @@ Lemma ex_S P n stack fr ss st :
           | CapErr => Err ESyntaxErr
           | CapAnom k => Anomaly k
           end
+      | SWrap w body =>
+          match w with
+          | WFor => ex P n stack fr (SAssign "w_"%string (EConst 0) :: body ++ r) st
+          | _ => ex P n stack fr (body ++ r) st
+          end
       end
   end.
 Proof. reflexivity. Qed.
@@ -167,20 +173,40 @@ Lemma own_key f x : frame_ok f -> is_some_b (assoc x (fr_own f)) = smem x (d_par
 Proof. intros (H & _ & _). rewrite assoc_keys, H. apply smem_own_names. Qed.
 
 (* ---------- lookup ---------- *)
-Lemma lookup_agree fr st x : frame_ok' fr -> p_lookup L fr st x = p_lookup R fr st x.
+Lemma lookup_agree fr st x : frame_ok' fr ->
+  match p_lookup L fr st x with LkAnom _ => True | r => p_lookup R fr st x = r end.
 Proof.
-  destruct fr as [f|]; [|reflexivity]. intros Hok. cbn [p_lookup L R ps_policy py_policy]. unfold ps_lookup, py_lookup.
-  destruct (smem x (d_globals (fr_def f))) eqn:Eg; [reflexivity|].
-  pose proof (own_key f x Hok) as K. rewrite assoc_app.
-  rewrite (orb_comm (smem x (py_locals_list (fr_def f)))).
-  destruct (assoc x (fr_own f)) as [a|] eqn:Eo; cbn [is_some_b] in K; rewrite <- K; [reflexivity|].
-  destruct (assoc x (fr_cap f)) as [a|] eqn:Ec; [reflexivity|].
-  unfold lk_global. destruct (assoc x (st_globals st)) as [v|]; [|reflexivity].
-  destruct (smem x (ps_raw_locals cfg (fr_def f))) eqn:Er; [|reflexivity]. exfalso.
-  destruct Hok as (Hk & Hc & Hn). destruct (consistent_parts _ Hc) as (_ & P2 & _). specialize (P2 x Er).
-  rewrite Eg in P2. cbn [orb] in P2. apply orb_true_iff in P2 as [P2|P2].
-  - rewrite forallb_forall in Hn. apply smem_In in P2. specialize (Hn x P2). rewrite Ec in Hn. discriminate.
-  - rewrite smem_own_names in P2. rewrite <- K in P2. discriminate.
+  destruct fr as [f|].
+  - intros Hok. cbn [p_lookup L R ps_policy py_policy]. unfold ps_lookup, py_lookup.
+    destruct (smem x (d_globals (fr_def f))) eqn:Eg.
+    { unfold lk_global, lk_builtin. destruct (assoc x (st_globals st)) as [v|]; [reflexivity|]. cbn [andb].
+      destruct (smem x builtin_names); [exact I|reflexivity]. }
+    pose proof (own_key f x Hok) as K. rewrite assoc_app.
+    rewrite (orb_comm (smem x (py_locals_list (fr_def f)))).
+    destruct (assoc x (fr_own f)) as [a|] eqn:Eo; cbn [is_some_b] in K; rewrite <- K.
+    { (* a slot of its own *)
+      unfold lk_cell. destruct (cell_get st a); [reflexivity|].
+      destruct (slot_is_cell f x); [reflexivity|].
+      assert (Hraw : smem x (ps_raw_locals cfg (fr_def f)) = true).
+      { destruct Hok as (Hk & Hc & Hn). destruct (consistent_parts _ Hc) as (P1 & _ & _).
+        unfold ps_raw_locals. rewrite smem_app. rewrite orb_comm in K. symmetry in K. apply orb_true_iff in K as [K|K].
+        - rewrite <- P1 in K. unfold ps_locals_list in K. rewrite smem_filter in K. apply andb_true_iff in K as [_ K].
+          unfold ps_is_local in K. apply andb_true_iff in K as [K _]. apply andb_true_iff in K as [K _].
+          rewrite <- smem_app in K. rewrite smem_app in K. exact K.
+        - rewrite K. reflexivity. }
+      destruct (assoc x (st_globals st)) as [v|]; [rewrite Hraw; reflexivity|].
+      unfold lk_builtin. destruct (smem x builtin_names); [exact I|reflexivity]. }
+    destruct (assoc x (fr_cap f)) as [a|] eqn:Ec.
+    { unfold lk_cell, slot_is_cell. rewrite Ec. cbn [is_some_b]. rewrite orb_true_r. destruct (cell_get st a); reflexivity. }
+    unfold lk_global. destruct (assoc x (st_globals st)) as [v|].
+    + destruct (smem x (ps_raw_locals cfg (fr_def f))) eqn:Er; [|reflexivity]. exfalso.
+      destruct Hok as (Hk & Hc & Hn). destruct (consistent_parts _ Hc) as (_ & P2 & _). specialize (P2 x Er).
+      rewrite Eg in P2. cbn [orb] in P2. apply orb_true_iff in P2 as [P2|P2].
+      * rewrite forallb_forall in Hn. apply smem_In in P2. specialize (Hn x P2). rewrite Ec in Hn. discriminate.
+      * rewrite smem_own_names in P2. rewrite <- K in P2. discriminate.
+    + unfold lk_builtin. destruct (smem x builtin_names); reflexivity.
+  - intros _. cbn [p_lookup L R ps_policy py_policy ps_lookup py_lookup]. unfold lk_global, lk_builtin.
+    destruct (assoc x (st_globals st)); [reflexivity|]. destruct (smem x builtin_names); reflexivity.
 Qed.
 
 (* ---------- assignment ---------- *)
@@ -230,7 +256,7 @@ Proof.
       * apply negb_false_iff, eqb_prop in A1. rewrite <- A1. reflexivity.
       * destruct (find_cell stack x) as [a|]; [discriminate|].
         destruct (smem x (d_nonlocals d)) eqn:En.
-        -- destruct (ps_lookup cfg fr st x); try exact I; (split; [destruct (smem x (uses_py d)); reflexivity|reflexivity]).
+        -- destruct (ps_lookup cfg true fr st x); try exact I; (split; [destruct (smem x (uses_py d)); reflexivity|reflexivity]).
         -- split; [destruct (smem x (uses_py d)); reflexivity|reflexivity].
     + (* not in var_names *)
       assert (En : smem x (d_nonlocals d) = false).
@@ -242,7 +268,7 @@ Proof.
       * destruct (smem x (uses_py d)); reflexivity.
   - (* declared global or own local: neither side captures *)
     cbn [andb].
-    assert (Hcore : ps_capture_core cfg stack fr d st x = CrSkip).
+    assert (Hcore : ps_capture_core cfg true stack fr d st x = CrSkip).
     { unfold ps_capture_core. destruct (smem x (vn_ps d)); [|reflexivity]. cbn [negb].
       destruct (smem x (d_globals d)); [reflexivity|]. cbn in Ecap. apply negb_false_iff in Ecap. rewrite Ecap. reflexivity. }
     rewrite Hcore.
@@ -330,7 +356,8 @@ Proof.
   - (* expressions *)
     intros stack fr e st Hok HNA. rewrite !ev_S in *. cbv zeta in *. destruct e as [z|x|a b|a|c a b|f args].
     + reflexivity.
-    + rewrite <- (lookup_agree fr st x Hok). reflexivity.
+    + pose proof (lookup_agree fr st x Hok) as Hl. destruct (p_lookup L fr st x) as [v| |k]; [rewrite Hl; reflexivity|rewrite Hl; reflexivity|].
+      exfalso. apply (HNA k). reflexivity.
     + rewrite (SubE stack fr a st Hok) by (intros k Hk; apply (HNA k); rewrite Hk; reflexivity).
       destruct (ev L n stack fr a st) as [va st1| | |]; try reflexivity.
       rewrite (SubE stack fr b st1 Hok) by (intros k Hk; apply (HNA k); rewrite Hk; reflexivity). reflexivity.
@@ -342,7 +369,7 @@ Proof.
       destruct (ev L n stack fr f st) as [vf st1| | |]; try reflexivity.
       rewrite (SubA stack fr args st1 Hok) by (intros k Hk; apply (HNA k); rewrite Hk; reflexivity).
       destruct (ev_args L n stack fr args st1) as [vs st2| | |]; try reflexivity.
-      destruct vf as [|  |d cap]; try reflexivity.
+      destruct vf as [| |d cap|b]; try reflexivity.
       pose proof (enter_agree d cap vs st2) as He.
       destruct (p_enter L d cap vs st2) as [fr' st3| |k].
       * destruct He as [He Hok']. rewrite He.
@@ -358,7 +385,7 @@ Proof.
     rewrite (SubA stack fr r st1 Hok) by (intros k Hk; apply (HNA k); rewrite Hk; reflexivity). reflexivity.
   - (* statement lists *)
     intros stack fr ss st Hok HNA. rewrite !ex_S in *. destruct ss as [|s r]; [reflexivity|].
-    destruct s as [x e|e|e|d].
+    destruct s as [x e|e|e|d|w body].
     + rewrite (SubE stack fr e st Hok) by (intros k Hk; apply (HNA k); rewrite Hk; reflexivity).
       destruct (ev L n stack fr e st) as [v st1| | |]; try reflexivity.
       destruct (p_assign L fr st1 x v) as [st2|] eqn:Ea.
@@ -375,6 +402,7 @@ Proof.
         -- exfalso. apply (HNA 0%nat). reflexivity.
       * rewrite Hc. reflexivity.
       * exfalso. apply (HNA k). reflexivity.
+    + destruct w; (apply SubX; [assumption|]; intros k Hk; apply (HNA k); exact Hk).
 Qed.
 
 Theorem closure_equiv fuel prog :
@@ -469,4 +497,33 @@ Definition prog_D301 : list stmt :=
 Lemma closure_refuted_D301 :
   observe (ps_run sdev_off false 50 prog_D301) <> observe (py_run 50 prog_D301)
   /\ ps_run sdev_off true 50 prog_D301 = Anomaly 2.
+Proof. split; vm_compute; [discriminate|reflexivity]. Qed.
+
+(* def F1(): global max; return max(1, 2) ...;  k = F1()   — a declared-global name that only the builtins define *)
+Definition prog_D302 : list stmt :=
+  [SDef (FDef "F1" [] ["max"] [] [SReturn (ECall (v "max") [EConst 1; EConst 2])]); SAssign "k" (call0 "F1")].
+Lemma closure_refuted_D302 :
+  observe (ps_run sdev_off false 50 prog_D302) <> observe (py_run 50 prog_D302)
+  /\ ps_run sdev_off true 50 prog_D302 = Anomaly 4.
+Proof. split; vm_compute; [discriminate|reflexivity]. Qed.
+
+(* the only nested def of a function sits in an except handler and captures a parameter; globals named like builtins *)
+Definition prog_wraps : list stmt :=
+  [SAssign "abs" (EConst 7);
+   SDef (FDef "F1" ["p"] [] []
+     [SWrap WHandler [SDef (FDef "f2" [] [] [] [SReturn (EAdd (v "p") (v "abs"))])];
+      SWrap WFor [SAssign "a" (ECall (v "max") [v "p"; call0 "f2"])];
+      SReturn (ETr (v "a"))]);
+   SAssign "k" (ECall (v "F1") [EConst 5])].
+Example closure_wraps_instance :
+  observe (ps_run sdev_off true 50 prog_wraps) = ObsOk [Some 12] [("abs", OInt 7); ("F1", OFun); ("k", OInt 12)]
+  /\ observe (py_run 50 prog_wraps) = observe (ps_run sdev_off true 50 prog_wraps).
+Proof. split; vm_compute; reflexivity. Qed.
+
+(* def F1(): b = tr(min); min = 1; return 0 ...;  k = F1()   — an unassigned local of a function without inner def, named like a builtin *)
+Definition prog_D303 : list stmt :=
+  [SDef (FDef "F1" [] [] [] [SAssign "b" (ETr (v "min")); SAssign "min" (EConst 1); SReturn (EConst 0)]); SAssign "k" (call0 "F1")].
+Lemma closure_refuted_D303 :
+  observe (ps_run sdev_off false 50 prog_D303) <> observe (py_run 50 prog_D303)
+  /\ ps_run sdev_off true 50 prog_D303 = Anomaly 5.
 Proof. split; vm_compute; [discriminate|reflexivity]. Qed.
